@@ -216,6 +216,9 @@ def run_cold_order(case):
         for nm in (named if e2 is None and isinstance(named, list) else []):
             if isinstance(nm, str):
                 call(chords.from_shorthand, nm)
+    # ... and so were slash chords over the chord under test
+    for bass in ("G", root, "Bb"):
+        call(chords.from_shorthand, root + sh + "/" + bass)
     chord, e = call(chords.from_shorthand, root + sh)
     S.trans(3)
     if (e0 is None) != (e is None) or (e is None and chord != base):
